@@ -217,11 +217,22 @@ def check_case(case, ctx):
     frozen = None
     for kk in range(n):
         if kk == k_unsub:
+            # the reward is replaced: the old one unsubscribed, a new one of
+            # the same class created (subscriber count unchanged)
             d4.unsubscribe(idle4)
             frozen = list(idle4.rewards)
+            idle_base = idle_from_rows(fp.schedule_rows(d4.schedule))
+            idle5 = IdleTimeReward(d4)
         a, b = history[kk] if kk < len(history) else (0, 0)
         drv4.step(a, b, "ready")
         rows4 = fp.schedule_rows(d4.schedule)
+        if frozen is not None:
+            ctx.check(
+                len(idle5.rewards) == kk + 1 - k_unsub and sum(idle5.rewards) == -(idle_from_rows(rows4) - idle_base),
+                "replacement-reward",
+                f"IdleTimeReward created after its predecessor was unsubscribed at step {k_unsub}: after dispatch {kk} "
+                f"rewards {idle5.rewards}, expected {kk + 1 - k_unsub} rewards summing to {-(idle_from_rows(rows4) - idle_base)}",
+            )
         ctx.check(
             len(mk4.rewards) == kk + 1 and sum(mk4.rewards) == -feasible.makespan(rows4),
             "hand-subscribed:MakespanReward",
